@@ -52,6 +52,13 @@ chk("C11", "exploration",
     "End-to-end findability monitor: documents with hostile field values (multi-byte case pairs whose lower-case form changes length, combining marks, non-ASCII digits/numbers, separators, wildcard characters, quotes, backslashes, invalid bytes, values at limit-1/limit/limit+1) are ingested through the real bulk.Ingestor (tokenizers, indexer, mapping incl. object, tags, multi-type and size-limited fields) into a real store; for every mapped field, queries are built from the field's own content by the statement's rule (whole value / each word / each leading path / existence) in every SeqQL quoting style and the legacy syntax and executed by the real parsers and search path; each must return the document. Over-limit values must be skipped or findable by their valid prefix, and every indexed token must be a (lower-cased) value, word, path cut or prefix of one.",
     "Case sensitivity and partial indexing are fixed per worker (process-global settings); nested fields not generated.", "runtime findability oracle (index side vs query side executed end-to-end)", "DESIGN.md 2/C11")
 
+chk("C09", "fault_enumeration",
+    "The real bulk.SeqDBClient (retry loop, per-replica written-status bookkeeping, shard shuffling, circuit breakers) runs over recording fake store clients whose k-th call per host succeeds, fails or times out by script; scripts are exhaustive over {ok,error}^(hosts x BulkMaxTries) for topologies up to 2x2 hot + 1x1 long-term (evenly thinned in the quick tier, complete in thorough) and seeded beyond incl. timeouts and a worker group whose breakers open. An offline checker over the recorded call log demands: acknowledged => some hot shard has, on every replica, a successful call carrying exactly the request payload, likewise in the long-term tier; no host sees more than BulkMaxTries calls.",
+    "Shard order is shuffled by the client with the global PRNG, so the set of hosts reached is not replayable; the verdict is computed from the calls recorded in that run.", "offline checker over a recorded call log under scripted fault sequences (exhaustive small topologies + seeded)", "DESIGN.md 2/C09")
+chk("C16", "fault_enumeration",
+    "The real search.Ingestor (replica fail-over, special error codes, QPR merge, pagination, per-source fetch streams merged by position) runs over scripted fake stores that answer from the reference model; per-host behaviours: search ok/error/wants-old-data/too-many-fractions, fetch ok/error/break-after-k/missing/extra/reordered. Exhaustive over the search alphabet for topologies up to 2x2 (+1x1 long-term), seeded beyond and for fetch faults. The oracle is computed from the recorded responses: error, or IDs = page of the de-duplicated merge over the answering shards, partial flag iff a shard did not answer, long-term stores consulted on wants-old-data, document i = document of ID i or empty - and not empty when the delivering store's stream was flawless.",
+    "Fake stores answer instantly; a panic caught at the call boundary counts as an error (the proxy has a recovery interceptor) and is tallied.", "runtime oracle over recorded responses under enumerated per-call faults", "DESIGN.md 2/C16")
+
 def main():
     claimed = sorted(CHECKS)
     na = [{"property_id": p, "reason": "check not built yet in this session (planned; see DESIGN.md section 2)"} for p in ALL if p not in CHECKS]
